@@ -314,11 +314,66 @@ def _wait(ctx, w):
     ctx.cover(("wait", kind, pattern, exc is None, bool(inside)))
 
 
+def _mode_t_observation(ctx):
+    """Mode T, observation only (rule 7): a waiter task in wait_for_bootup() /
+    wait_for_heartbeat() and the receive task under the seeded scheduler, frames
+    back to back.  wait_for_bootup() clears its flag at the top of every loop turn:
+    a boot-up message that the receive thread handles between two turns (after an
+    ordinary heartbeat woke the waiter) is lost and the call runs into its
+    time-out.  The statement does not quantify over schedules, so this is counted,
+    not judged; what IS judged: the master's view after all frames, and that a wait
+    never returns without a matching message."""
+    ctx.enable_threads((0, 4)[ctx.choice(2, "policy")])
+    if ctx.choice(2, "stalls"):
+        ctx.stall = lambda: (0, 0, 300 * US, 3 * MS)[ctx.choice(4, "stall")]
+        ctx.fault("slow-task")
+    w = W(ctx)
+    nid = w.own
+    kind = ("hb", "bootup")[ctx.choice(2, "kind")]
+    frames = [(5, 4, 127, 0)[ctx.choice(4, "byte")] for _ in range(1 + ctx.choice(4, "nframes"))]
+    gaps = [(0, 0, 0.0002, 0.002)[ctx.choice(4, "gap")] for _ in frames]
+    result = []
+
+    def producer():
+        ctx.sleep(0.001)
+        for b, g in zip(frames, gaps):
+            if g:
+                ctx.sleep(g)
+            w.raw.send(0x700 + nid, bytes([b]))
+
+    def waiter():
+        m = w.r[nid].nmt
+        result.append(call(m.wait_for_bootup, 0.05) if kind == "bootup" else call(m.wait_for_heartbeat, 0.05))
+        ctx.sleep(0.03)         # every frame has been handled by the receive task when the run ends
+    ctx.spawn("producer", producer)
+    ctx.spawn("waiter", waiter)
+    ctx.run_tasks()
+    for t in ctx.tasks:
+        if t.exc is not None:
+            raise t.exc
+    res, exc = result[0]
+    matching = [b for b in frames if kind == "hb" or b == 0]
+    if exc is not None and not isinstance(exc, NmtError):
+        ctx.violation("C11/nmt-call-raised/%s@%s" % (type(exc).__name__, site(exc)), "Mode T: wait raised %r" % (exc,))
+    if exc is None and not matching:
+        ctx.violation("C11/wait-returned-without-message/%s" % kind, "Mode T: %s wait returned %r although only %r arrived" % (kind, res, frames))
+    last = frames[-1]
+    if w.r[nid].nmt.state != NAMES[127 if last == 0 else last]:
+        ctx.violation("C11/master-view", "Mode T: after heartbeat bytes %r the master reports %r" % (frames, w.r[nid].nmt.state))
+    if matching and exc is not None:
+        ctx.observe("mode-T: wait_for_%s() ran into its time-out although a matching message was handled during the wait (not judged: schedule-dependent)" % kind)
+    else:
+        ctx.observe("mode-T: wait outcome as in the sequential model")
+    ctx.cover(("mode-T-observation", kind, len(frames), exc is None))
+
+
 def scenario(ctx):
-    mode = ctx.choice(4, "mode")
+    mode = ctx.choice(5, "mode")
     a = ctx.choice(30, "a")
     b = ctx.choice(30, "b")
     c = ctx.choice(30, "c")
+    if mode == 4:
+        return _mode_t_observation(ctx)
     w = W(ctx)
     if mode == 1:
         for x in (a, b, c):
